@@ -197,6 +197,12 @@ def _async_factor(ctx, repo):
                 ctx.ok("R-ASYNC", f"A-MaxSum factor ({m}): all variables answered when the set is complete", af, calls[0])
 
 
+def _slot_getter(e, i) -> bool:
+    """`lambda p: p[i]` for any parameter name"""
+    return isinstance(e, ast.Lambda) and len(e.args.args) == 1 and not e.args.defaults and isinstance(e.body, ast.Subscript) and isinstance(e.body.value, ast.Name) \
+        and e.body.value.id == e.args.args[0].arg and isinstance(e.body.slice, ast.Constant) and e.body.slice.value == i
+
+
 def check(ctx: Ctx):
     repo = ctx.repo
     ctx.decided = ("factor_costs_for_var: per value of the target variable the optimum over all assignments of the other variables "
@@ -273,7 +279,7 @@ def check(ctx: Ctx):
               "R-MARGINAL", "select_value: variable cost + every factor's message", sel, sel.node, "")
     # the optimum is taken over (value, cost) items by their cost slot, and (value, cost) is returned in that order: either the pair is kept
     # and indexed [0], [1], or it is unpacked into two names returned in the same order
-    sels = [c for c in ast.walk(sel.node) if isinstance(c, ast.Call) and call_name(c) in ("min", "max") and any(k.arg == "key" and norm(k.value) in ("itemgetter(1)", "operator.itemgetter(1)", "lambda x: x[1]") for k in c.keywords)
+    sels = [c for c in ast.walk(sel.node) if isinstance(c, ast.Call) and call_name(c) in ("min", "max") and any(k.arg == "key" and (norm(k.value) in ("itemgetter(1)", "operator.itemgetter(1)") or _slot_getter(k.value, 1)) for k in c.keywords)
             and c.args and norm(c.args[0]) == "d_costs.items()"]
     rets = [r for r in walk_no_nested(sel.node) if isinstance(r, ast.Return)]
     oks = len(sels) == 2 and len(rets) == 1 and isinstance(rets[0].value, ast.Tuple) and len(rets[0].value.elts) == 2
